@@ -986,9 +986,9 @@ var c14idxBoundary = []int32{-1, -2, 0, 1, -2147483648, 2147483647, -64, 63, 64,
 
 func (g *c14gen) hostileIndex(cs *c14case) int32 {
 	switch k := g.r.Intn(100); {
-	case k < 55:
+	case k < 50:
 		return int32(g.r.Intn(cs.N))
-	case k < 70:
+	case k < 72:
 		return int32(cs.N + g.r.Intn(3) - 1) // n-1, n, n+1
 	case k < 90:
 		return c14idxBoundary[g.r.Intn(len(c14idxBoundary))]
@@ -1397,6 +1397,24 @@ func (g *c14gen) seeds() {
 			b := c14makeBlob(cs.Seed, cs.Len, cs.P)
 			g.setHs(cs, c14hsMessage(c14IDB.String(), b.mi.Digest().Hex(), b.mi.InfoHash().String(), c14bitfieldBytes(n, []uint64{3}), nil, c14NS))
 			g.finish(cs)
+		}
+	}
+	// requests / payloads / announces just past the last piece, on blobs whose length is and is not a multiple of the
+	// piece length (a reader "at the end of the file" must not be served); every case ends with A hanging up, so a
+	// bit set beyond the torrent would reach removePeer's counters
+	for _, sh := range []struct{ n, p, l int }{{4, 8, 8}, {1, 8, 8}, {4, 8, 5}, {1, 8, 3}, {2, 1, 1}} {
+		for _, ag := range []bool{true, false} {
+			t := tor{ag, sh.n, sh.p, sh.l, nil}
+			for _, d := range []int{0, 1} {
+				for _, ln := range []int{0, sh.p, sh.l} {
+					idx := int32(sh.n + d)
+					name := fmt.Sprintf("seed-past-end-n%d-p%d-l%d-agent-%v-idx+%d-len%d", sh.n, sh.p, sh.l, ag, d, ln)
+					one(name+"-request", t, &p2p.Message{Type: p2p.Message_PIECE_REQUEST, PieceRequest: &p2p.PieceRequestMessage{Index: idx, Length: int32(ln)}})
+					one(name+"-payload", t, &p2p.Message{Type: p2p.Message_PIECE_PAYLOAD, PiecePayload: &p2p.PiecePayloadMessage{Index: idx, Length: int32(ln)}})
+				}
+				one(fmt.Sprintf("seed-past-end-n%d-p%d-l%d-agent-%v-idx+%d-announce", sh.n, sh.p, sh.l, ag, d), t,
+					&p2p.Message{Type: p2p.Message_ANNOUCE_PIECE, AnnouncePiece: &p2p.AnnouncePieceMessage{Index: int32(sh.n + d)}})
+			}
 		}
 	}
 	// an agent completes through the hostile peer's valid payloads: B (complete) is closed for the legitimate reason only
